@@ -37,6 +37,9 @@ NamesOf(k) == IF k \in Kinds2 THEN Names ELSE Names1
 Cases == {Leaf(k, n) : k \in {"file", "mbox"}, n \in Names1} \cup {Leaf(k, n) : k \in {"file", "mbox"} \cap Kinds2, n \in Names}
          \cup {Cont("dir", n, "file", "in") : n \in NamesOf("dir")}
          \cup {Leaf("maildir", n) : n \in Names1}
+         \cup {Leaf("mapfile", n) : n \in Names1}                                  \* named map file in the root ...
+         \cup {Cont("dir", n, "mapfile", "in") : n \in Names1}                      \* ... and one level down
+         \cup {Cont("dir", "a", "mapfile", m) : m \in Inner}
          \cup {Cont(k, n, ik, m) : k \in {"dir", "zip"}, n \in Names1, ik \in {"file", "dir"}, m \in Inner}
          \cup {Cont("mapdir", n, ik, m) : n \in Names1, ik \in {"file", "dir"}, m \in {x \in Inner : MapOk(x)}}
 
